@@ -107,6 +107,14 @@ fn reply_bytes(case: &Case, k: usize) -> Vec<u8> {
     if case.esc && kind == 0 {
         text = escaped(&text, case.seed >> 2);
     }
+    if kind == 4 {
+        // a reply from a peer that is not careful about its encoding: a Latin-1 byte inside the text
+        let mut v = format!("{{\"parameters\":{{\"tag\":{k},\"text\":\"{text}").into_bytes();
+        v.extend_from_slice(b"caf\xe9");
+        v.extend_from_slice(if cont { &b"\"},\"continues\":true}"[..] } else { &b"\"}}"[..] });
+        v.push(0);
+        return v;
+    }
     let mut v = if kind == 1 {
         format!("{{\"error\":\"c.Fail\",\"parameters\":{{\"tag\":{k},\"why\":\"{text}\"}}}}")
     } else if kind == 2 {
@@ -256,9 +264,10 @@ fn execute(case: &Case) -> Result<(usize, bool), Damage> {
         let mut kinds = Vec::new();
         let mut k = 0;
         while k < n {
-            if case.replies[k].2 && case.replies[k].0 == 0 {
+            let ok_kind = |x: u8| x == 0 || x == 4;
+            if case.replies[k].2 && ok_kind(case.replies[k].0) {
                 // a run of continuing replies ends with the first non-continuing one
-                while k < n && case.replies[k].2 && case.replies[k].0 == 0 {
+                while k < n && case.replies[k].2 && ok_kind(case.replies[k].0) {
                     k += 1;
                 }
                 kinds.push(Kind::More);
@@ -371,6 +380,16 @@ pub fn run(cfg: &Cfg) -> Report {
             }
             v
         };
+        // now and then the peer is sloppy about its encoding in several replies of the stream (whether such a
+        // reply is refused or repaired is not judged here; what the stream hands out must stay intact)
+        let mut replies = replies;
+        if i % 7 == 3 {
+            for r in replies.iter_mut() {
+                if r.0 == 0 && rng.chance(2, 3) {
+                    r.0 = 4;
+                }
+            }
+        }
         let esc = i % 4 == 1;
         // escapes make the encoded text up to 3.4 times as long as the decoded one
         let total: usize = replies.iter().map(|r| r.1 * if esc { 4 } else { 1 } + 70).sum();
